@@ -3,7 +3,7 @@
    [gser]/[gser_top] (C05/Model.v) of zvariant::gvariant::Serializer; [gde] (C05/DeModel.v) models the Deserializer.
    Statements only; proofs are in C05/SerProofs.v, C05/Widths.v, C05/Refuted.v. *)
 From ZV Require Import Base.Bytes Base.Res Base.Sig DBus.Val DBus.Spec DBus.Ser C05.Val C05.Spec C05.Model C05.DeModel
-  C05.Classes C05.Widths C05.SerProofs C05.DepthProofs C05.DeProofs C05.Refuted.
+  C05.Classes C05.Widths C05.SerProofs C05.DepthProofs C05.DeProofs C05.RtFacts C05.RtProofs C05.Refuted.
 Local Open Scope N_scope.
 
 (* The property at full strength: for every byte order, start offset and well-formed value within the nesting limits
@@ -180,3 +180,35 @@ Example C07_gv_instances :
   gser_top LE 0 (gsig (tower_a 33 (GU8 7))) (sval_of (tower_a 33 (GU8 7))) = Err (EDepth DArray) /\
   gser_top LE 0 (gsig (tower_m 65 (GU8 7))) (sval_of (tower_m 65 (GU8 7))) = Err (EDepth DTotal).
 Proof. repeat split; vm_compute; reflexivity. Qed.
+
+(* ---- C02, GVariant half: encode-then-decode.  For every byte order, start offset and well-formed value within the
+   nesting limits, outside the known classes, without descriptors and without dicts (rtok: no dict node; the type string
+   of a variant's payload at most stack_limit bytes): the deserializer model, run on the serializer model's output with the
+   value's own signature, returns the value and consumes exactly the encoded length — for any recursion fuel >= 65. ---- *)
+Theorem C02_gv_roundtrip : forall (e : endian) (pos : N) (v : gval) (fuel : nat),
+  gwf v = true -> gwithin_limits v = true -> gplain v = true -> gsmall e v = true -> known_c05 e v = false ->
+  rtok v = true -> (65 <= fuel)%nat ->
+  exists (b : bytes) (st' : dst),
+    gser_top e pos (gsig v) (sval_of v) = Ok (b, []) /\
+    gde fuel (ginit_dst e pos (gsig v) b []) = Ok (v, st') /\ r_pos st' = len b.
+Proof. intros e pos v fuel H1 H2 H3 H4 H5 H6 H7. now apply gv_roundtrip_plain. Qed.
+Print Assumptions C02_gv_roundtrip.
+
+(* the decoder half on its own: any window that holds exactly the format's encoding of a value (padded to its alignment) is
+   decoded to that value and consumed entirely — independent of the serializer model *)
+Theorem C02_gv_decode_spec : forall (e : endian) (v : gval) (fuel : nat) (st : dst),
+  (gheight v <= fuel)%nat -> r_e st = e -> gwf v = true -> pre e v = true -> rtok v = true ->
+  r_sig st = gsig v -> dep_ok (r_dep st) -> gfits (r_dep st) v -> r_len st < 18446744073709551616 ->
+  holds st (pad (r_pos0 st + r_pos st) (galign (gsig v)) ++ gvb e v) ->
+  exists st', gde fuel st = Ok (v, st') /\ r_pos st' = r_len st.
+Proof. intros e v fuel st. exact (rt_all e v fuel st). Qed.
+Print Assumptions C02_gv_decode_spec.
+
+Example C02_gv_roundtrip_instance :
+  rtok (GStruct [GU8 7; GArray (SStruct [SStr; SU16; SStr]) [GStruct [GStr (B "k"); GU16 9; GStr []]; GStruct [GStr []; GU16 1; GStr (B "zz")]];
+                 GVariant (GMaybe SStr (Some (GStr (B "x")))); GMaybe (SArray SI64) (Some (GArray SI64 [GI64 (-1)]))]) = true
+  /\ rt_value BE 3 (GStruct [GU8 7; GArray (SStruct [SStr; SU16; SStr]) [GStruct [GStr (B "k"); GU16 9; GStr []]; GStruct [GStr []; GU16 1; GStr (B "zz")]];
+                 GVariant (GMaybe SStr (Some (GStr (B "x")))); GMaybe (SArray SI64) (Some (GArray SI64 [GI64 (-1)]))])
+      = Ok (GStruct [GU8 7; GArray (SStruct [SStr; SU16; SStr]) [GStruct [GStr (B "k"); GU16 9; GStr []]; GStruct [GStr []; GU16 1; GStr (B "zz")]];
+                 GVariant (GMaybe SStr (Some (GStr (B "x")))); GMaybe (SArray SI64) (Some (GArray SI64 [GI64 (-1)]))], 48, 48).
+Proof. split; vm_compute; reflexivity. Qed.
